@@ -574,19 +574,10 @@ fn format_binary_op_multiline(
         let first_line_combined = format!("{} {} {}", left_str, op_str, first_line_of_right);
 
         if indent + first_line_combined.len() <= max_cols {
-            // The opening line fits! Return the full formatted expression
-            // If right_str is multi-line, this will preserve that structure
-            if right_str.contains('\n') {
-                // Multi-line lambda (like with do block)
-                let remaining_lines = right_str.lines().skip(1).collect::<Vec<_>>().join("\n");
-                return format!(
-                    "{} {} {}\n{}",
-                    left_str, op_str, first_line_of_right, remaining_lines
-                );
-            } else {
-                // Single-line lambda
-                return format!("{} {} {}", left_str, op_str, right_str);
-            }
+            // The opening line fits! Return the full formatted expression. right_str is
+            // used as it is: taking it apart with lines() and joining it again would drop
+            // every '\r' in front of a '\n' (inside comments and string literals)
+            return format!("{} {} {}", left_str, op_str, right_str);
         }
 
         // If it doesn't fit, break before the operator (keep operator with right operand)
